@@ -131,6 +131,14 @@ pub fn main(o: &Opts) -> i32 {
             "MATCH (a)-[e]->(b) WITH a, count(b) AS c WHERE c > 1 RETURN id(a), c",
             "MATCH (a)-[e]->(b) WITH DISTINCT b WHERE b.k > 0 RETURN id(b)",
             "MATCH (a) WITH a ORDER BY id(a) LIMIT 3 WHERE a.k > 1 RETURN id(a)",
+            // ... and above paging: the filter sees only the rows that SKIP lets through
+            // (ORDER BY id(a) is not supported by the translators: the unique property u orders the rows)
+            "MATCH (a) WITH a ORDER BY a.u LIMIT 3 WHERE a.k > 1 RETURN id(a)",
+            "MATCH (a) WITH a ORDER BY a.u SKIP 1 WHERE a.k > 1 RETURN id(a)",
+            "MATCH (a) WITH a ORDER BY a.u SKIP 2 WHERE a.k < 2 RETURN id(a)",
+            "MATCH (a) WITH a ORDER BY a.u DESC SKIP 1 WHERE a.s = 'a' RETURN id(a)",
+            "MATCH (a) WITH a ORDER BY a.u SKIP 1 LIMIT 2 WHERE a.k > 0 RETURN id(a)",
+            "MATCH (a) WITH a SKIP 0 WHERE a.k > 1 RETURN id(a)",
             "UNWIND [1, 2, 3] AS x WITH x WHERE x > 1 MATCH (a) WHERE a.k = x RETURN x, id(a)",
             // patterns spread over several MATCH clauses, paths, subqueries
             "MATCH (a) MATCH (b), (c) WHERE a.k = b.k AND b.k = c.k AND id(b) < id(c) RETURN id(a), id(b), id(c)",
